@@ -861,7 +861,10 @@ Qed.
 Lemma to_nodeclaim_admits rq kept v :
   has (to_nodeclaim_req rq kept) v = mem v (map iname kept) && has (get rq it_label) v.
 Proof.
-  unfold to_nodeclaim_req, add. simpl fold_left. rewrite get_add1, String.eqb_refl. f_equal.
+  unfold to_nodeclaim_req.
+  change (add rq [(it_label, new_req In (minv (get rq it_label)) (map iname kept))])
+    with (add1 rq (it_label, new_req In (minv (get rq it_label)) (map iname kept))).
+  rewrite get_add1, String.eqb_refl. f_equal.
   unfold has, new_req. simpl. rewrite mem_dedup, andb_true_r. reflexivity.
 Qed.
 
